@@ -129,6 +129,9 @@ func (u *PacketUnderlay) Close() error {
 	// Unblock any pending I/O before closing sessions.
 	u.conn.SetReadDeadline(time.Now())
 	u.baseUnderlay.Close()
+	// The event loop may have re-armed its read timeout while the sessions
+	// were closing. Close the connection so it can't linger.
+	u.conn.Close()
 	return nil
 }
 
